@@ -273,9 +273,6 @@ Proof.
 Qed.
 
 (* ------------------------------------------------------------------ what the dict specification means *)
-Definition writes_key (k : Z) (op : c_op) : bool :=
-  match op with CSet k' _ => k' =? k | CDel k' => k' =? k | _ => false end.
-
 Lemma d_run_cons d op t :
   d_run d (op :: t) = (fst (d_run (fst (d_step d op)) t), snd (d_step d op) :: snd (d_run (fst (d_step d op)) t)).
 Proof.
